@@ -48,15 +48,38 @@ def _install_gates(report_w, go_r, formats_halfway=True):
         if not b:
             os._exit(3)
 
-    # no real waiting between lock attempts: the controller decides when to retry
+    # No real waiting between lock attempts: the controller decides when to retry. The waiting
+    # process's clock is virtual: a scheduler may delay a process for arbitrarily long, so every
+    # second wait between two attempts "takes" 30 s (any time-out based lock breaking must cope).
     class _Time(object):
+        def __init__(self):
+            self._skew = 0.0
+            self._n = 0
+
         def __getattr__(self, n):
             import time as _t
 
             return getattr(_t, n)
 
         def sleep(self, _s):
+            self._n += 1
+            self._skew += 30.0 if self._n % 2 == 0 else float(_s)
             return None
+
+        def perf_counter(self):
+            import time as _t
+
+            return _t.perf_counter() + self._skew
+
+        def monotonic(self):
+            import time as _t
+
+            return _t.monotonic() + self._skew
+
+        def time(self):
+            import time as _t
+
+            return _t.time() + self._skew
 
     fapi.time = _Time()
 
